@@ -273,6 +273,40 @@ def extractParams : Fields → List (String × String) → Except Nat (List (Str
       | some x =>
         match extractParams rest q with | .ok r => .ok ((name, x) :: r) | .error e => .error e
 
+/-! ### Two quirks of the code as it stands (kept in the model; see notes/C07.md)
+
+* a member reached through `#[serde(flatten)]` is buffered by serde as string
+  content, and only string-like members can be read back from it: a numeric or
+  boolean member of a flattened struct makes `Query<T>` extraction fail with
+  400 whenever it is supplied;
+* `HttpResponseHeaders<_, H>` serialises `H` with `to_map`, whose value
+  serialiser accepts strings only: any other member type (integers, `Option`)
+  makes every response a 500. -/
+
+def Ty.stringly : Ty → Bool
+  | .str => true
+  | .uuid => true
+  | .enumOf _ => true
+  | .opt t => t.stringly
+  | _ => false
+
+def Fields.lookup (n : String) : Fields → Option Ty
+  | .nil => none
+  | .cons name ty _ rest => if n == name then some ty else rest.lookup n
+
+/-- `Query<T>` extraction where the members named in `flat` come from a
+flattened struct. -/
+def extractParamsFlat (flat : List String) (fs : Fields) (q : List (String × String)) :
+    Except Nat (List (String × Val)) :=
+  if q.any (fun kv => flat.contains kv.1 &&
+      (match fs.lookup kv.1 with | some t => !t.stringly | none => false)) then .error 400
+  else extractParams fs q
+
+/-- can `to_map` serialise a header struct with these members? -/
+def headersSerialisable : Fields → Bool
+  | .nil => true
+  | .cons _ ty _ rest => (match ty with | .str => true | _ => false) && headersSerialisable rest
+
 /-! ## Request bodies -/
 
 /-- `ApiEndpointBodyContentType`. -/
@@ -303,6 +337,15 @@ def loadBody (t : Ty) (mime : Option String) (body : Option J) : Except Nat Val 
       | none => .error 400                        -- not JSON at all
       | some j => match decodeJson t j with | some v => .ok v | none => .error 400)
   | some _ => .error 400
+
+/-- a `TypedBody<T>` endpoint declared with
+`content_type = "application/x-www-form-urlencoded"`: the media type must be
+that one, and the pairs must extract into the struct. -/
+def loadForm (fs : Fields) (mime : Option String) (pairs : List (String × String)) :
+    Except Nat (List (String × Val)) :=
+  match BodyCT.ofMime (mime.getD "application/json") with
+  | some .urlEncoded => extractParams fs pairs
+  | _ => .error 400
 
 /-! ## Responses -/
 
